@@ -46,6 +46,7 @@ type Case struct {
 	ID         int     `json:"id"` // worker id (printed in front of every record)
 	Batches    []Batch `json:"batches"`
 	CloseInput bool    `json:"close_input,omitempty"` // the input channel is closed after the last batch
+	Queue      int     `json:"queue,omitempty"`       // capacity of the worker's input channel (batch-queue-depth): later batches wait there
 }
 
 type obs struct {
@@ -108,7 +109,7 @@ func run(c Case) obs {
 	defer func() { os.Stdout = saved; w.Close() }()
 
 	sh := shutdown.NewShutdownHandler()
-	in := make(chan transport.Batch)
+	in := make(chan transport.Batch, c.Queue)
 	written := make(chan *ordered_map.OrderedMap)
 	statsCh := make(chan stats.Stat, 1<<12)
 	lg := logrus.New()
@@ -122,31 +123,39 @@ func run(c Case) obs {
 		tp.StartTransporting()
 	}()
 	stopped := false
-	for _, b := range c.Batches {
-		var tb transport.Batch
+	// the batches, built up front
+	tbs := make([]transport.Batch, len(c.Batches))
+	for k, b := range c.Batches {
 		if b.Wrong {
-			tb = kbatch.NewKinesisBatch("pk", kutils.KINESIS_PART_BATCH)
-		} else {
-			gb := gbatch.NewGenericBatch("pk", 1<<20)
-			for i, rec := range b.Recs {
-				_, _ = gb.Add(&marshaller.MarshalledMessage{Operation: "INSERT", Json: []byte(rec), TimeBasedKey: b.Key, Transaction: strings.Split(b.Key, "-")[0], WalStart: uint64(i)})
+			tbs[k] = kbatch.NewKinesisBatch("pk", kutils.KINESIS_PART_BATCH)
+			continue
+		}
+		gb := gbatch.NewGenericBatch("pk", 1<<20)
+		for i, rec := range b.Recs {
+			_, _ = gb.Add(&marshaller.MarshalledMessage{Operation: "INSERT", Json: []byte(rec), TimeBasedKey: b.Key, Transaction: strings.Split(b.Key, "-")[0], WalStart: uint64(i)})
+		}
+		tbs[k] = gb
+	}
+	o.linesAtReport = make([][]string, len(c.Batches))
+	o.reported = make([]bool, len(c.Batches))
+	o.reportTxns = make([]string, len(c.Batches))
+	// a feeder keeps the worker's queue (capacity c.Queue) as full as it can: with Queue > 0 the next batches
+	// are already waiting when the worker finishes one (batch-queue-depth of the real pipeline); the written
+	// channel is unbuffered, so the worker cannot go on to batch i+1 before report i has been taken here
+	fedAll := make(chan struct{})
+	go func() {
+		defer close(fedAll)
+		for _, tb := range tbs {
+			select {
+			case in <- tb:
+			case <-done:
+				return
 			}
-			tb = gb
 		}
-		o.linesAtReport = append(o.linesAtReport, nil)
-		o.reported = append(o.reported, false)
-		o.reportTxns = append(o.reportTxns, "")
+	}()
+	for i := range c.Batches {
 		if stopped {
-			continue
-		}
-		select {
-		case in <- tb:
-		case <-done:
-			stopped = true
-			continue
-		case <-time.After(5 * time.Second):
-			o.infra = "worker does not receive"
-			return o
+			break
 		}
 		select {
 		case m, ok := <-written:
@@ -154,7 +163,6 @@ func run(c Case) obs {
 				stopped = true
 				break
 			}
-			i := len(o.reported) - 1
 			o.reported[i] = true
 			o.linesAtReport[i] = lines(readAvailable(rfd))
 			var ks []string
@@ -167,6 +175,14 @@ func run(c Case) obs {
 			stopped = true
 		case <-time.After(5 * time.Second):
 			o.infra = "neither a written report nor a stop"
+			return o
+		}
+	}
+	if !stopped {
+		select {
+		case <-fedAll:
+		case <-time.After(5 * time.Second):
+			o.infra = "worker does not receive"
 			return o
 		}
 	}
@@ -208,6 +224,7 @@ func monitor(c Case, o obs) []core.Violation {
 			break
 		}
 	}
+	var wantCum, gotCum []string
 	for i, b := range c.Batches {
 		if faultAt >= 0 && i >= faultAt {
 			if o.reported[i] {
@@ -219,23 +236,24 @@ func monitor(c Case, o obs) []core.Violation {
 			add("C04", "healthy-batch-not-reported", fmt.Sprintf("batch %d (%d records) was never reported written", i, len(b.Recs)))
 			continue
 		}
-		var want []string
+		// the pipe is read right AFTER report i was taken; by then the worker may already be printing the
+		// next batch, so the comparison is cumulative: everything printed up to that read starts with the
+		// records of the batches 0..i, in order
 		for _, rec := range b.Recs {
-			want = append(want, fmt.Sprintf("%d: %s", c.ID, rec))
+			wantCum = append(wantCum, fmt.Sprintf("%d: %s", c.ID, rec))
 		}
-		got := o.linesAtReport[i]
-		if len(got) < len(want) {
-			add("C01", "written-before-every-record-was-printed", fmt.Sprintf("batch %d: %d of %d records were on standard output when the written report arrived", i, len(got), len(want)))
-		}
-		if strings.Join(got, "\n") != strings.Join(want, "\n") && len(got) >= len(want) {
-			add("C04", "printed-records-differ-from-the-batch", fmt.Sprintf("batch %d: printed %q, the batch holds %q", i, got, want))
+		gotCum = append(gotCum, o.linesAtReport[i]...)
+		if len(gotCum) < len(wantCum) {
+			add("C01", "written-before-every-record-was-printed", fmt.Sprintf("batch %d: %d of the %d records of the batches up to it were on standard output when its written report arrived", i, len(gotCum), len(wantCum)))
+		} else if strings.Join(gotCum[:len(wantCum)], "\n") != strings.Join(wantCum, "\n") {
+			add("C04", "printed-records-differ-from-the-batch", fmt.Sprintf("up to batch %d: printed %q, the batches hold %q", i, gotCum[:len(wantCum)], wantCum))
 		}
 		if wantT := fmt.Sprintf("%s:%d", b.Key, len(b.Recs)); o.reportTxns[i] != wantT && len(b.Recs) > 0 {
 			add("C04", "written-report-differs-from-the-batch", fmt.Sprintf("batch %d: report says %q, the batch's transactions are %q", i, o.reportTxns[i], wantT))
 		}
 	}
-	if faultAt < 0 && len(o.rest) > 0 {
-		add("C04", "records-printed-outside-any-reported-batch", fmt.Sprintf("%d extra lines after the last report: %q", len(o.rest), o.rest))
+	if all := append(append([]string{}, gotCum...), o.rest...); faultAt < 0 && len(all) > len(wantCum) && len(gotCum) >= len(wantCum) {
+		add("C04", "records-printed-outside-any-reported-batch", fmt.Sprintf("%d extra lines beyond the records of the reported batches: %q", len(all)-len(wantCum), all[len(wantCum):]))
 	}
 	if faultAt >= 0 || c.CloseInput {
 		if !o.terminated {
@@ -268,6 +286,9 @@ func gen(rng *rand.Rand) Case {
 		c.Mode = "input-closed"
 		c.CloseInput = true
 	}
+	if rng.Intn(2) == 0 {
+		c.Queue = 1 + rng.Intn(3) // drawn last
+	}
 	return c
 }
 
@@ -288,7 +309,7 @@ func init() {
 		}
 		return sb.String()
 	}, Run: func(rng *rand.Rand, n int, corpusDir string, rep *core.Report) string {
-		rep.Rule = "monitor-only: the real stdout worker with real GenericBatches (1-5 batches of 1-5 records: JSON with spaces, percent signs, UTF-8, up to 300 bytes), os.Stdout replaced by a pipe; faults: a batch of another type (panic inside the worker), input channel closed. Checked at the moment each written report arrives: every record of the batch is already printed (C01), exactly the batch's records in order with the worker id in front (C04), report = the batch's transactions; after a fault: termination raised, worker returned, nothing reported (C17). Non-trivial: every case."
+		rep.Rule = "monitor-only: the real stdout worker with real GenericBatches (1-5 batches of 1-5 records: JSON with spaces, percent signs, UTF-8, up to 300 bytes), os.Stdout replaced by a pipe; half of the cases give the worker an input queue of capacity 1-3 that a feeder keeps full (batch-queue-depth: later batches are already waiting when the worker finishes one); faults: a batch of another type (panic inside the worker), input channel closed. Checked at the moment each written report arrives: every record of the batch is already printed (C01), exactly the batch's records in order with the worker id in front (C04), report = the batch's transactions; after a fault: termination raised, worker returned, nothing reported (C17). Non-trivial: every case."
 		for i := 0; i < n; i++ {
 			c := gen(rng)
 			o := run(c)
